@@ -1239,8 +1239,8 @@ def r7_apply(src, log, map_kind="result", path_map_kind="result", map_or_kind="o
                         log.setdefault("R7.fired", []).append(meth + "(path)")
                         changed = True
                         break
-                if meth == "map" and not is_closure and re.fullmatch(r"[A-Za-z_][\w:]*", arg) and path_map_kind == "result":
-                    # Result::map(path)
+                if meth in ("map", "map_err") and not is_closure and re.fullmatch(r"[A-Za-z_][\w:]*", arg) and path_map_kind == "result":
+                    # Result::map(path) / Result::map_err(path)
                     j = k - 1
                     while j >= 0:
                         tj = toks[s[j]]
@@ -1256,9 +1256,13 @@ def r7_apply(src, log, map_kind="result", path_map_kind="result", map_or_kind="o
                         j -= 1
                     r0 = j + 1
                     recv = src[toks[s[r0]].start:t.start].strip()
-                    src = _replace(src, [(toks[s[r0]].start, toks[c].end, "(match %s { Ok(v__) => Ok(%s(v__)), Err(e__) => Err(e__) })" % (recv, arg))])
+                    if meth == "map":
+                        rep_ = "(match %s { Ok(v__) => Ok(%s(v__)), Err(e__) => Err(e__) })" % (recv, arg)
+                    else:
+                        rep_ = "(match %s { Ok(v__) => Ok(v__), Err(e__) => Err(%s(e__)) })" % (recv, arg)
+                    src = _replace(src, [(toks[s[r0]].start, toks[c].end, rep_)])
                     log["R7"] = log.get("R7", 0) + 1
-                    log.setdefault("R7.fired", []).append("map(path)")
+                    log.setdefault("R7.fired", []).append(meth + "(path)")
                     changed = True
                     break
                 if meth not in ("ok_or", "then_some") and not is_closure:
@@ -1321,6 +1325,8 @@ def r7_apply(src, log, map_kind="result", path_map_kind="result", map_or_kind="o
                     new = "(match %s { Some(%s) => Some(%s), None => None })" % (recv, params, body)
                 elif meth == "map_err":
                     new = "(match %s { Ok(v__) => Ok(v__), Err(%s) => Err(%s) })" % (recv, params, body)
+                elif meth == "and_then" and map_kind == "option":
+                    new = "(match %s { Some(%s) => %s, None => None })" % (recv, params, body)
                 elif meth == "and_then":
                     new = "(match %s { Ok(%s) => %s, Err(e__) => Err(e__) })" % (recv, params, body)
                 elif meth == "ok_or_else":
